@@ -6,7 +6,7 @@ Line protocol of model `logstore` (C02/C03, the whole Raft log through FileStore
   open [geom=<interval>,<area>] | reopen     -> ok
   a <i> <t> <len> <seed> | b <i> <t> <n> <len> <seed>   -> ok | err
   del <k> -> ok     get <a> <b> -> ents n=<n> <i:t:len:seed | i:t:ptr>…     last -> last <i> <t>
-  compact <i> <t> -> ok
+  compact <i> <t> -> ok     inst <i> <t> -> ok   (snapshot installation: SplitOff(u64::MAX) + InstallSnapshotPointerLog)
 -/
 namespace RNacos.Driver.StoreDrv
 open RNacos.LogStore RNacos.Driver
@@ -37,6 +37,7 @@ def answer (s : Store) (ws : List String) : Store × String :=
     -- list specification (C03: "the reported term is that of the last remaining entry")
     (s, if s.ents.isEmpty then s!"last {(last s).1} *" else s!"last {(last s).1} {(last s).2}")
   | ["compact", i, t] => (compact s (n i) (n t), "ok")
+  | ["inst", i, t] => (install s (n i) (n t), "ok")
   -- term and vote as the node's RaftStorage keeps and reports them (C05): whatever the log holds - nothing, in particular
   | ["hs", t, v] => ({ s with hs := (n t, n v) }, "ok")
   | ["init"] => (s, s!"init last={(last s).1}:* applied=* hs={s.hs.1}:{s.hs.2}")
@@ -70,7 +71,7 @@ makes no statement about that part -/
 def step (s : Store) (ws : List String) : Store × String :=
   let r := answer s ws
   match ws with
-  | "open" :: _ | ["reopen"] | "a" :: _ | "b" :: _ | "del" :: _ | "compact" :: _ =>
+  | "open" :: _ | ["reopen"] | "a" :: _ | "b" :: _ | "del" :: _ | "compact" :: _ | "inst" :: _ =>
     if r.2 == "ok" || r.2 == "err" then (r.1, r.2 ++ " **") else r
   | _ => r
 
@@ -106,6 +107,7 @@ def mgrStep (m : RNacos.LogManager.Mgr) (rows : List RNacos.LogManager.CatRow) (
     some (r.1, some (r.2 == .ok))
   | ["del", k] => some (RNacos.LogManager.strip m (n k), none)
   | ["compact", i, t] => some (RNacos.LogManager.compact full m (n i) (n t), none)
+  | ["inst", i, t] => some (RNacos.LogManager.install full m (n i) (n t), none)
   | _ => none
 
 def specStep (st : SpecSt) (ws : List String) : SpecSt × String :=
